@@ -136,3 +136,40 @@ package keeper
 //@   loop L5 invariant [C01.maporder.terminate] forall i int :: 0 <= i && i <= MaxUint64 && has(Shard, i) ==> Shard[i] == old(Shard[i])
 //@   loop L5 invariant [C01.maporder.terminate] forall i int :: visited(i) ==> indom(shardSet, i)
 //@   loop L5 ensures [C01.maporder.terminate] forall i int :: 0 <= i && i <= MaxUint64 ==> (has(Shard, i) <==> (old(has(Shard, i)) && !indom(shardSet, i)))
+
+// HandleTimeoutOrder: re-examination of an order that was handed to providers and is not fully stored after its timeout.
+//@ func (Keeper) HandleTimeoutOrder(ctx, orderId)
+//@   requires forall c string :: has(Pledge, c) ==> Pledge[c].Creator == c && i64(Pledge[c].TotalStorage - Pledge[c].UsedStorage) == Pledge[c].TotalStorage - Pledge[c].UsedStorage
+//@   requires forall k bytes :: rawhas(Node, k) ==> k == keyof(Node, rawget(Node, k).Creator)
+//@   requires forall i int :: 0 <= i && i <= MaxUint64 && has(Shard, i) ==> Shard[i].Id == i && i < effShardCount(get(ShardCount))
+//@   requires forall i int :: 0 <= i && i <= MaxUint64 && has(Order, i) ==> Order[i].Id == i
+//@   requires forall h int :: 0 <= h && h <= MaxUint64 && has(TimeoutOrder, h) ==> TimeoutOrder[h].Height == h
+//@   requires forall h int :: 0 <= h && h <= MaxUint64 && has(ExpiredData, h) ==> ExpiredData[h].Height == h
+//@   requires forall c string :: has(Metadata, c) ==> Metadata[c].DataId == c && Metadata[c].CreatedAt + Metadata[c].Duration <= MaxUint64
+//@   requires [C11.sched.unique] forall c string, h int :: has(Metadata, c) && 0 <= h && h <= MaxUint64 && has(ExpiredData, h) && contains(ExpiredData[h].Data, c) ==> h == u64(Metadata[c].CreatedAt + Metadata[c].Duration)
+//@   requires [C11.sched.once] forall c string, h int, i int, j int :: 0 <= h && h <= MaxUint64 && has(ExpiredData, h) && 0 <= i && i < j && j < len(ExpiredData[h].Data) ==> !(ExpiredData[h].Data[i] == c && ExpiredData[h].Data[j] == c)
+//@   requires effShardCount(get(ShardCount)) <= MaxUint64 - 1000000 && (has(Order, orderId) ==> len(Order[orderId].Shards) < 1000000)
+//@   modifies *
+//@   at RandomSP assert [C15.timeout.ignore] forall i int :: 0 <= i && i < len(order.Shards) && has(Shard, order.Shards[i]) ==> contains(ignore, Shard[order.Shards[i]].Sp)
+//@   at RandomSP assert [C15.timeout.count] count >= 1
+//@   ensures [C05.timeout.shards] old(has(Order, orderId)) && old(Order[orderId].Status) != OrderPending && !has(Order, orderId) ==>
+//@       forall i int :: 0 <= i && i < len(old(Order[orderId].Shards)) ==> !has(Shard, old(Order[orderId].Shards)[i])
+//@   ensures [C12.timeout.absent] !old(has(Order, orderId)) ==> !has(Order, orderId)
+//@   loop L1 invariant -1 <= rangeindex && rangeindex < len(order.Shards) && timeoutCount >= 0 && timeoutCount == len(timeoutShards) && timeoutCount <= rangeindex + 1
+//@   loop L1 invariant forall j int :: 0 <= j && j <= rangeindex && has(Shard, order.Shards[j]) ==> contains(sps, Shard[order.Shards[j]].Sp)
+//@   loop L1 invariant forall q int :: 0 <= q && q < len(timeoutShards) ==> timeoutShards[q].Id < effShardCount(get(ShardCount))
+//@   loop L1 decreases [C02.timeout.term] len(order.Shards) - rangeindex
+//@   loop L2 invariant -1 <= rangeindex
+//@   loop L2 decreases [C02.timeout.term] len(uncompletedShards) - rangeindex
+//@   loop L3 invariant -1 <= rangeindex && rangeindex < len(order.Shards)
+//@   loop L3 invariant forall j int :: 0 <= j && j <= rangeindex ==> !has(Shard, order.Shards[j])
+//@   loop L3 invariant Order[orderId0] == old(Order[orderId0]) && has(Order, orderId0)
+//@   loop L3 decreases [C02.timeout.term] len(order.Shards) - rangeindex
+//@   loop L4 invariant -1 <= rangeindex
+//@   loop L4 decreases [C02.timeout.term] len(uncompletedShards) - rangeindex
+//@   loop L5 frameexcept order
+//@   loop L5 invariant -1 <= rangeindex && rangeindex < len(randSp)
+//@   loop L5 invariant forall i int :: 0 <= i && i <= MaxUint64 && has(Shard, i) ==> Shard[i].Id == i && i < effShardCount(get(ShardCount))
+//@   loop L5 invariant effShardCount(get(ShardCount)) <= old(effShardCount(get(ShardCount))) + rangeindex + 1 && effShardCount(get(ShardCount)) >= old(effShardCount(get(ShardCount)))
+//@   loop L5 invariant has(Order, orderId0)
+//@   loop L5 decreases [C02.timeout.term] len(randSp) - rangeindex
